@@ -1,8 +1,7 @@
 """C12 - duration arithmetic and rounding casts are exact rational arithmetic."""
-from pipes import duration
-
-
 import os
+
+from pipes import duration
 
 
 def run(tier, rep):
@@ -17,8 +16,9 @@ def run(tier, rep):
     if notes:
         rep.notes.append({"outside_statement": notes[0]["kind"], "occurrences": len(notes),
                           "example": {"event": notes[0].get("ev"), "expected": notes[0].get("expected")}})
-        print("NOTE: property=C12 %d deviation(s) outside the property statement: implicit conversion to a floating-point "
-              "duration ignores the denominator of the period ratio (see evidence notes)" % len(notes))
+        import vlib
+        vlib.log("[C12] note: %d deviation(s) outside the property statement: implicit conversion to a floating-point "
+                 "duration that is not the common type ignores the denominator of the period ratio (see evidence notes)" % len(notes))
     rep.assumptions += [
         "inputs are selected by TLC: the exact result is representable AND the arithmetic the standard prescribes "
         "(duration_cast through common_type<To::rep, Rep, intmax_t>, operators through the common type) has no signed overflow",
